@@ -1,8 +1,9 @@
 (* C12 — a configuration file means what it says, and nonsense is refused.
    Only statements here; proofs live in Proofs/Config.v.  Gen_C12 is regenerated on every run from
    pyxel/detectors/{geometry,characteristics,environment}.py, apd/apd_characteristics.py (src_guards)
-   and pyxel/configuration/configuration.py (src_checks).  The documented ranges (Model.Config.documented),
-   the mode / detector key lists and the list of known discrepancies below are LITERAL. *)
+   pyxel/configuration/configuration.py (src_checks) and pyxel/exposure/readout.py (src_readout_params,
+   src_replace_carried).  The documented ranges (Model.Config.documented), the mode / detector key lists and the
+   list of readout settings are LITERAL. *)
 From Coq Require Import QArith ZArith List Bool String.
 From PyxelV Require Import Model.Config Proofs.Config.
 From PyxelGen Require Import Gen_C12.
@@ -12,84 +13,66 @@ Open Scope string_scope.
 
 (* ---------------------------------------------------------------------------------- same limits *)
 
-(* FULL statement: for every documented field r, for the constructor guard and for the setter guard
-   (s), for every number, NaN or sequence x the field can be given, the guard accepts x exactly when
-   x is inside the documented range:
-     accepts (ctor_guard f) x = accepts (setter_guard f) x = in_documented_range f x. *)
-Definition C12_same_limits_full : Prop := same_limits documented src_guards [].
-
-(* The unchanged tree does NOT satisfy it.  Each line is a concrete disagreement (field, side, value). *)
-Definition known_discrepancies : list witness := [
-  (* setters without any check (DESIGN section 7, F13) *)
-  ((CCharacteristics, "adc_bit_resolution"), SSetter, VNum 3);
-  ((CCharacteristics, "adc_bit_resolution"), SSetter, VNaN);
-  ((CCharacteristics, "adc_voltage_range"), SSetter, VSeq 3);
-  ((CCharacteristics, "adc_voltage_range"), SSetter, VNum 5);
-  ((CCharacteristics, "adc_voltage_range"), SSetter, VNaN);
-  ((CAPDCharacteristics, "adc_voltage_range"), SSetter, VSeq 3);
-  ((CAPDCharacteristics, "adc_voltage_range"), SSetter, VNum 5);
-  ((CAPDCharacteristics, "adc_voltage_range"), SSetter, VNaN);
-  (* constructor without any check (F13) *)
-  ((CGeometry, "pixel_scale"), SCtor, VNum (-1));
-  ((CGeometry, "pixel_scale"), SCtor, VNaN);
-  (* `if x and not (...)`: a falsy out-of-range value is never looked at *)
-  ((CAPDCharacteristics, "adc_bit_resolution"), SCtor, VNum 0);
-  ((CAPDCharacteristics, "adc_voltage_range"), SCtor, VSeq 0);
-  ((CAPDCharacteristics, "adc_voltage_range"), SCtor, VNum 0);
-  (* `if x <= lo: raise` / `if x < lo or x > hi: raise`: a NaN is never refused *)
-  ((CGeometry, "row"), SCtor, VNaN);
-  ((CGeometry, "row"), SSetter, VNaN);
-  ((CGeometry, "col"), SCtor, VNaN);
-  ((CGeometry, "col"), SSetter, VNaN);
-  ((CCharacteristics, "quantum_efficiency"), SSetter, VNaN);
-  ((CAPDCharacteristics, "quantum_efficiency"), SSetter, VNaN);
-  ((CAPDCharacteristics, "avalanche_gain"), SSetter, VNaN);
-  ((CEnvironment, "wavelength"), SSetter, VNaN)
-].
-
-Theorem C12_same_limits_refuted : ~ C12_same_limits_full.
-Proof.
-  apply (discrepancy_refutes documented src_guards
-           ((CCharacteristics, "adc_bit_resolution"), SSetter, VNum 3)).
-  vm_compute. reflexivity.
-Qed.
-Print Assumptions C12_same_limits_refuted.
-
-(* every listed discrepancy is real: the guard of the current source and the documented range disagree on it
-   (so the exception list below contains nothing that is not a defect; a repaired field breaks this theorem) *)
-Theorem C12_same_limits_witnesses :
-  forall f s x, In (f, s, x) known_discrepancies ->
-  exists r g, lookup_doc documented f = Some r /\ guard_at src_guards f s = Some g /\
-              well_kinded (d_range r) x = true /\ accepts g x <> in_range (d_range r) x.
-Proof. apply witnesses_are_discrepancies. vm_compute. reflexivity. Qed.
-Print Assumptions C12_same_limits_witnesses.
-
-(* PARTIAL: outside the (field, side, class of value) triples of the listed discrepancies, the guard of the
-   current source accepts exactly the documented range — for ALL rationals, NaN, and all sequence lengths. *)
-Theorem C12_same_limits_partial :
-  same_limits documented src_guards (exceptions_of known_discrepancies).
+(* THE refusal theorem, at full strength, over the guard table regenerated from the current source: for every
+   documented field r, for the constructor guard and for the setter guard (s), and for EVERY value x the field
+   can be given — every rational, NaN, +inf, -inf, every sequence length, carried by a python int / float or
+   by a numpy scalar that is not an instance of int | float —
+     * a value carried by int / float is accepted exactly when it is inside the documented range:
+         accepts (ctor_guard f) x = accepts (setter_guard f) x = in_documented_range f x
+     * whatever carries the number, an out-of-range value (NaN included) is refused.
+   There is no exception list.  (History: the unrepaired tree refuted this statement on 46 (field, side, value
+   class) triples — unchecked setters, truthiness and isinstance preconditions, NaN-blind comparisons; they were
+   repaired by the fix: commits recorded in known_findings.json, and a regression makes this theorem fail.) *)
+Theorem C12_same_limits : same_limits documented src_guards [].
 Proof. apply check_table_sound. vm_compute. reflexivity. Qed.
-Print Assumptions C12_same_limits_partial.
+Print Assumptions C12_same_limits.
 
-(* non-vacuity: a checked triple, spelled out; and the number of checked well-kinded triples *)
-Example C12_same_limits_partial_instance :
+(* the same statement unfolded for one side of one field, for every value *)
+Theorem C12_same_limits_pointwise :
+  forall r s x k,
+    In r documented -> well_kinded (d_range r) x = true -> class_of x = Some k ->
+    exists g, guard_at src_guards (d_key r) s = Some g /\
+              (is_np x = false -> accepts g x = in_range (d_range r) x) /\
+              (accepts g x = true -> in_range (d_range r) x = true).
+Proof. exact (same_limits_pointwise _ _ C12_same_limits). Qed.
+Print Assumptions C12_same_limits_pointwise.
+
+(* constructor and setter of a field agree with each other on every int / float carried value *)
+Theorem C12_ctor_equals_setter :
+  forall r x k,
+    In r documented -> well_kinded (d_range r) x = true -> class_of x = Some k -> is_np x = false ->
+    exists gc gs, guard_at src_guards (d_key r) SCtor = Some gc /\ guard_at src_guards (d_key r) SSetter = Some gs /\
+                  accepts gc x = accepts gs x.
+Proof. exact (ctor_equals_setter _ _ C12_same_limits). Qed.
+Print Assumptions C12_ctor_equals_setter.
+
+(* non-vacuity: an instance spelled out; and the number of well-kinded (field, side, value class) triples covered *)
+Example C12_same_limits_instance :
   forall q, exists g,
     guard_at src_guards (CCharacteristics, "quantum_efficiency") SCtor = Some g /\
     accepts g (VNum q) = Qle_bool 0 q && Qle_bool q 1.
 Proof.
-  intro q.
-  destruct (C12_same_limits_partial
-              (DocRow (CCharacteristics, "quantum_efficiency") (closed 0 1) true) SCtor (VNum q) KNum)
-    as [g [Hg Ha]]; try reflexivity.
-  - simpl. tauto.
-  - exists g. split; [exact Hg | exact Ha].
+  exact (same_limits_num_instance documented src_guards
+           (DocRow (CCharacteristics, "quantum_efficiency") (closed 0 1) true) SCtor C12_same_limits
+           (or_intror (or_intror (or_intror (or_intror (or_intror (or_intror (or_introl eq_refl)))))))
+           (ex_intro _ _ (ex_intro _ _ eq_refl))).
 Qed.
 
-Example C12_same_limits_partial_coverage :
+Example C12_same_limits_instances :
+  exists gs gb gv gt,
+    guard_at src_guards (CCharacteristics, "adc_bit_resolution") SSetter = Some gs /\
+    guard_at src_guards (CAPDCharacteristics, "adc_bit_resolution") SCtor = Some gb /\
+    guard_at src_guards (CCharacteristics, "adc_voltage_range") SSetter = Some gv /\
+    guard_at src_guards (CEnvironment, "temperature") SCtor = Some gt /\
+    accepts gs (VNum 3) = false /\ accepts gs VNaN = false /\ accepts gs (VNum 4) = true /\ accepts gs (VNum 64) = true /\
+    accepts gb (VNum 0) = false /\ accepts gv (VSeq 3) = false /\ accepts gv (VSeq 2) = true /\ accepts gv (VNum 5) = false /\
+    accepts gt (VNpNum (-5)) = false /\ accepts gt (VNpNum 300) = true /\ accepts gt (VInf true) = false.
+Proof. vm_compute. repeat eexists. Qed.
+
+Example C12_same_limits_coverage :
   List.length (filter (fun t => match t with (r, s, k) =>
-                  negb (excepted (exceptions_of known_discrepancies) (d_key r) s k) &&
                   match d_range r, k with DRange _ _, KSeq => false | _, _ => true end end)
-                (list_prod (list_prod documented [SCtor; SSetter]) [KNum; KNaN; KSeq])) = 59%nat.
+                (list_prod (list_prod documented [SCtor; SSetter]) all_classes)) = 194%nat.
 Proof. vm_compute. reflexivity. Qed.
 
 (* None means "not specified": the constructor takes it exactly for the fields documented as optional *)
@@ -185,4 +168,82 @@ Example C12_settings_example :
 Proof. vm_compute. reflexivity. Qed.
 
 Example C12_arange_len_example : arange_len 1 5 1 = 4%nat /\ arange_len (1#2) 3 (1#4) = 10%nat.
+Proof. vm_compute. split; reflexivity. Qed.
+
+(* ---------------------------------------------------------------------------------- derived objects *)
+
+(* A readout derived from the loaded one — Readout.replace with keyword changes (the dask sweep over
+   'observation.readout.times' calls replace(times=...)), the `times` setter, a copy — is modelled by `derive`:
+   the regenerated list src_replace_carried says which settings replace() hands to the new object. *)
+
+(* every setting of a readout is carried (and nothing the constructor does not take) — over the regenerated lists *)
+Theorem C12_replace_carries_every_setting :
+  (forall k, In k readout_settings -> In (readout_key k) (map readout_key src_replace_carried)) /\
+  (forall k, In k src_replace_carried -> In k src_readout_params).
+Proof. apply carries_all_sound. vm_compute. reflexivity. Qed.
+Print Assumptions C12_replace_carries_every_setting.
+
+(* for ALL settings and changes: a carried setting that is not changed keeps the value of the original, ... *)
+Theorem C12_derived_keeps_unchanged :
+  forall settings changes k,
+    In k (map readout_key src_replace_carried) -> lookup k changes = None ->
+    lookup k (derive (map readout_key src_replace_carried) settings changes) = lookup k settings.
+Proof. exact (derive_keeps (map readout_key src_replace_carried)). Qed.
+Print Assumptions C12_derived_keeps_unchanged.
+
+(* ... a changed one has the new value, ... *)
+Theorem C12_derived_sets_changed :
+  forall settings changes k v,
+    In k (map readout_key src_replace_carried) -> lookup k changes = Some v ->
+    lookup k (derive (map readout_key src_replace_carried) settings changes) = Some v.
+Proof. exact (derive_sets (map readout_key src_replace_carried)). Qed.
+Print Assumptions C12_derived_sets_changed.
+
+(* ... and nothing else appears. *)
+Theorem C12_derived_nothing_else :
+  forall settings changes k w,
+    lookup k (derive (map readout_key src_replace_carried) settings changes) = Some w ->
+    In k (map readout_key src_replace_carried) /\
+    (lookup k changes = Some w \/ (lookup k changes = None /\ lookup k settings = Some w)).
+Proof. exact (derive_nothing_else (map readout_key src_replace_carried)). Qed.
+Print Assumptions C12_derived_nothing_else.
+
+(* composed with loading: whatever other keys a sweep changes, the readout setting the file wrote (or left to its
+   default) is still the one the derived readout has — e.g. start_time under a sweep of the readout times *)
+Theorem C12_sweep_keeps_file_settings :
+  forall defaults doc changes k,
+    In k readout_settings -> lookup (readout_key k) changes = None ->
+    lookup (readout_key k) (derive (map readout_key src_replace_carried) (build kind_of_key defaults doc) changes)
+    = lookup (readout_key k) (build kind_of_key defaults doc).
+Proof.
+  intros defaults doc changes k.
+  apply (derived_keeps_file_setting kind_of_key src_readout_params). vm_compute. reflexivity.
+Qed.
+Print Assumptions C12_sweep_keeps_file_settings.
+
+Example C12_sweep_example :
+  let doc := [("mode.readout.times", LList [LNum 1]); ("mode.readout.start_time", LNum (1#2))] in
+  let defaults := [("mode.readout.start_time", LNum 0); ("mode.readout.non_destructive", LBool false)] in
+  let swept := derive (map readout_key src_replace_carried) (build kind_of_key defaults doc)
+                      [("mode.readout.times", LList [LNum 4])] in
+  map (fun k => lookup k swept) ["mode.readout.times"; "mode.readout.start_time"; "mode.readout.non_destructive"]
+  = [Some (LList [LNum 4]); Some (LNum (1#2)); Some (LBool false)].
+Proof. vm_compute. reflexivity. Qed.
+
+(* ---------------------------------------------------------------------------------- what is compared *)
+
+(* The loaded-settings comparison is testing; this theorem pins its EXTENT to the source: every constructor parameter
+   of every class pyxel.load builds an object of (regenerated: src_ctor_params) is in the literal table of compared
+   settings or in the short literal table of exclusions (custom observation mode, working directory of a calibration,
+   pygmo local optimizer), and both tables name only parameters that exist.  A new constructor parameter breaks it. *)
+Theorem C12_every_parameter_compared :
+  (forall c ps p, In (c, ps) src_ctor_params -> In p ps ->
+     (exists qs, In (c, qs) compared_params /\ In p qs) \/ (exists qs, In (c, qs) uncompared_params /\ In p qs)) /\
+  (forall c qs p, In (c, qs) (compared_params ++ uncompared_params) -> In p qs ->
+     exists ps, In (c, ps) src_ctor_params /\ In p ps).
+Proof. apply params_covered_sound. vm_compute. reflexivity. Qed.
+Print Assumptions C12_every_parameter_compared.
+
+Example C12_every_parameter_compared_nonvacuous :
+  List.length (flat_map snd src_ctor_params) = 125%nat /\ List.length (flat_map snd uncompared_params) = 4%nat.
 Proof. vm_compute. split; reflexivity. Qed.
